@@ -108,7 +108,10 @@ pub fn run(outdir: &Path, tier: &str, seed: u64, shards: usize, replay: Option<S
                 o.struct_name = None;
                 let oc = call_from_file(&p.schema.render_sdl(), &text, &o, i * 10 + kind);
                 let (nmods, all_eq) = match &oc {
-                    runner::Outcome::Ok(ts) => match items::parse_tokens(ts) {
+                    // CLI form: the tokens are printed into a .rs file and compiled from there; rustc turns CR LF into
+                    // LF when it reads a source file (inside raw string literals too), so the constant the consumer
+                    // gets is the literal's value after that step
+                    runner::Outcome::Ok(ts) => match syn::parse_file(&ts.to_string().replace("\r\n", "\n")).map_err(|e| e.to_string()).and_then(|f| items::conv_file(&f)) {
                         Ok(ms) => (ms.len(), ms.iter().all(|m| m.query.as_bytes() == text.as_bytes())),
                         Err(_) => (0, false),
                     },
